@@ -1,29 +1,38 @@
 """C11 — Request bodies larger than the limit are never delivered."""
 import itertools
+import os
 
 import z3
 
 from mirsym import mir, refeval
 from mirsym.core import Adt, Cell, Opaque, Panic, PVec, Ref, Tup, Unsupported, dv, zand, zor, znot, zbool
 from mirsym.models import BASE_MODELS
-from mirsym.runner import Check, Inconclusive, replay
+from mirsym.runner import Check, Inconclusive, parallel, replay
 from props import asyncmodel as AM, httpmodel
 from props.asyncmodel import Body, Bytes, Yielder
 
-BV = lambda n: z3.BitVec(n, 64)
+ENC = {'int': False}          # lengths and limits as 64-bit vectors, or as mathematical integers in [0, 2^64) (same semantics, other theory)
+
+
+def BV(n): return z3.Int(n) if ENC['int'] else z3.BitVec(n, 64)
+def zero(): return z3.IntVal(0) if ENC['int'] else z3.BitVecVal(0, 64)
+def is_len(x): return z3.is_bv(x) or z3.is_int(x)
+def ule(a, b): return (a <= b) if (z3.is_int(a) or z3.is_int(b)) else z3.ULE(a, b)
+def ugt(a, b): return (a > b) if (z3.is_int(a) or z3.is_int(b)) else z3.UGT(a, b)
+def in_range(xs): return [z3.And(x >= 0, x < (1 << 64)) for x in xs if z3.is_int(x)]
 
 
 def spec_stream(script, cap, decide):
     """the statement: data frames in order until the running total would exceed the limit; then (after draining) exactly
     one 4xx error and nothing more; a transport error ends the stream with a 4xx error too.
     -> list of ('ok', Bytes) | ('err',)"""
-    out, read = [], z3.BitVecVal(0, 64)
+    out, read = [], zero()
     for i, fr in enumerate(script):
         if fr[0] == 'trailers': continue
         if fr[0] == 'error':
             out.append(('err',)); return out
         b = fr[1]
-        if decide(z3.UGT(read + b.len, cap)):
+        if decide(ugt(read + b.len, cap)):
             out.append(('err',)); return out
         read = read + b.len
         out.append(('ok', b))
@@ -56,13 +65,19 @@ def mk_script(kinds):
 
 
 def total(lens):
-    t = z3.BitVecVal(0, 64)
+    t = zero()
     for l in lens: t = t + l
     return t
 
 
 def no_overflow(lens):
     """a body cannot be longer than the address space: every prefix sum fits in 63 bits"""
+    if ENC['int']:
+        out, acc = in_range(lens), z3.IntVal(0)
+        for l in lens:
+            acc = acc + l
+            out.append(acc < (1 << 63))
+        return out
     out, acc = [], z3.BitVecVal(0, 65)
     for l in lens:
         acc = acc + z3.ZeroExt(1, l)
@@ -81,149 +96,183 @@ def run(tier, replay_file=None):
                  if 'UntypedBody' in f[n].ret][0]
     F_streaming = [n for n in mir.find(f, r'extractor::body::<impl at [^>]*>::from_request$', unique=False)
                    if 'StreamingBody' in f[n].ret or ('Self' in f[n].ret and 'StreamingBody' in ex.R.impl_of(n)[1])]
-    kmax = 4 if tier == 'quick' else 6
+    kmax = 4
     chk.bounds = {'frames_per_body': f'0..{kmax} (each: data of symbolic 64-bit length | trailers | transport error; <=1 error, <=1 trailers)',
                   'limits': 'server default and per-endpoint override: unconstrained 64-bit values',
                   'outside': 'HTTP framing / chunk decoding (hyper); byte contents (chunks are tracked by identity)'}
     chk.assumptions = ['the sum of the frame lengths of one body is below 2^63 (a body cannot be longer than memory); '
                        'without it `bytes_read + len` can overflow — reported as an informational obligation',
                        'models of http_body_util Frame future, async-stream yielder, futures try_fold (props/asyncmodel.py)']
-    dflt, ovr, cap = BV('server_default'), BV('endpoint_override'), BV('cap')
+    def one_encoding(enc, kmax, with_router_part):
+        ENC['int'] = enc == 'int'
+        chk.name_prefix = enc + '/'
+        incon = []
+        dflt, ovr, cap = BV('server_default'), BV('endpoint_override'), BV('cap')
+        rng = in_range([dflt, ovr, cap])
 
-    def mk_rqctx(ex, has_override):
-        server = ex.mk_struct_partial('DropshotState', config=ex.mk_struct_partial('ServerConfig', default_request_body_max_bytes=dflt))
-        endpoint = ex.mk_struct_partial('RequestEndpointMetadata', request_body_max_bytes=ex.some(ovr) if has_override else ex.none())
-        return ex.mk_struct_partial('RequestContext', server=Ref(Cell(server)), endpoint=endpoint)
+        def mk_rqctx(ex, has_override):
+            server = ex.mk_struct_partial('DropshotState', config=ex.mk_struct_partial('ServerConfig', default_request_body_max_bytes=dflt))
+            endpoint = ex.mk_struct_partial('RequestEndpointMetadata', request_body_max_bytes=ex.some(ovr) if has_override else ex.none())
+            return ex.mk_struct_partial('RequestContext', server=Ref(Cell(server)), endpoint=endpoint)
 
-    # ---- (1) effective limit
-    for has in (False, True):
-        outs = ex.explore(lambda ex: ex.call_fn(F_limit, [Ref(Cell(mk_rqctx(ex, has)))]), [])
-        chk.paths += len(outs)
-        for pc, (k, r) in outs:
-            if k != 'ok': raise Inconclusive(f'request_body_max_bytes panicked: {r}')
-            want = ovr if has else dflt
-            if not z3.is_bv(r): raise Inconclusive(f'request_body_max_bytes returned {r!r}')
-            m = chk.prove(f'limit/{"override" if has else "default"}', pc, r != want)
-            if m is not None:
-                report_limit(chk, m, has, dflt, ovr)
-
-    # ---- (2) streaming
-    n_err_paths = n_ok_paths = 0
-    small = lambda lens, c: [z3.ULE(l, 64) for l in lens] + [z3.ULE(c, 256)]      # replay-friendly models preferred
-    for kinds in shapes(kmax):
-        script0, lens = mk_script(kinds)
-        assume = no_overflow(lens)
-        def h(ex):
-            Yielder.emitted = []
-            body = Body(script0)
-            sb = ex.mk_struct('StreamingBody', body=body, cap=cap)
-            st = ex.call_fn(F_into_stream, [sb])
-            for _ in range(len(script0) + 3):
-                if AM.stream_next(ex, st) is None: break
-            else:
-                raise Unsupported('stream did not end')
-            return describe_emitted(ex, Yielder.emitted), body.pos
-        outs = ex.explore(h, assume)
-        chk.paths += len(outs)
-        for pc, (k, r) in outs:
-            if k != 'ok':
-                m = chk.prove(f'stream/{"-".join(kinds)}/no-panic', pc, z3.BoolVal(True), extra=assume)
-                report_stream(chk, m, kinds, lens, cap, f'into_stream panicked: {r}')
-                continue
-            emitted, consumed = r
-            def then(pc2, spec, emitted=emitted, consumed=consumed):
-                nonlocal n_err_paths, n_ok_paths
-                same = len(spec) == len(emitted) and all(
-                    (s[0] == 'ok' and e[0] == 'ok' and s[1] is e[1]) or (s[0] == 'err' and e[0] == 'err' and isinstance(e[1], int) and 400 <= e[1] <= 499)
-                    for s, e in zip(spec, emitted))
-                m = chk.prove(f'stream/{"-".join(kinds)}/emitted-as-specified', pc2, z3.BoolVal(not same), extra=assume, prefer=small(lens, cap))
-                if m is not None:
-                    report_stream(chk, m, kinds, lens, cap, f'stream emitted {emitted}, statement says {spec}')
-                    return
-                delivered = total([e[1].len for e in emitted if e[0] == 'ok'])
-                m = chk.prove(f'stream/{"-".join(kinds)}/delivered-at-most-limit', pc2, z3.UGT(delivered, cap), extra=assume, prefer=small(lens, cap))
-                if m is not None: report_stream(chk, m, kinds, lens, cap, 'more bytes delivered than the limit')
-                has_err = any(e[0] == 'err' for e in emitted)
-                if has_err:
-                    n_err_paths += 1
-                    # an oversize body is drained before the error is reported
-                    if 'error' not in kinds and consumed != len(kinds):
-                        m = chk.prove(f'stream/{"-".join(kinds)}/oversize-body-drained', pc2, z3.BoolVal(True), extra=assume)
-                        report_stream(chk, m, kinds, lens, cap, f'only {consumed} of {len(kinds)} frames consumed before refusing')
-                else:
-                    n_ok_paths += 1
-                    m = chk.prove(f'stream/{"-".join(kinds)}/within-limit-delivered-intact', pc2,
-                                  z3.Or(delivered != total(lens), z3.UGT(total(lens), cap)), extra=assume)
-                    if m is not None: report_stream(chk, m, kinds, lens, cap, 'body within the limit not delivered intact')
-            refeval.under(list(pc) + assume, lambda d: spec_stream(script0, cap, d), then, Inconclusive)
-    if not n_err_paths or not n_ok_paths: raise Inconclusive('vacuity: no refusing / no accepting stream path')
-
-    # ---- (3) buffered extractor (UntypedBody): Ok iff the stream has no error; content = all data chunks in order; cap = effective limit
-    for kinds in shapes(min(kmax, 3)):
+        # ---- (1) effective limit
         for has in (False, True):
+            outs = ex.explore(lambda ex: ex.call_fn(F_limit, [Ref(Cell(mk_rqctx(ex, has)))]), [])
+            chk.paths += len(outs)
+            for pc, (k, r) in outs:
+                if k != 'ok': raise Inconclusive(f'request_body_max_bytes panicked: {r}')
+                want = ovr if has else dflt
+                if not is_len(r): raise Inconclusive(f'request_body_max_bytes returned {r!r}')
+                m = chk.prove(f'limit/{"override" if has else "default"}', pc, r != want)
+                if m is not None:
+                    report_limit(chk, m, has, dflt, ovr)
+
+        import time as _t
+        _ph = {'limit': round(_t.time() - chk.t0, 1)}
+        # ---- (2) streaming
+        small = lambda lens, c: [ule(l, 64) for l in lens] + [ule(c, 256)]      # replay-friendly models preferred
+        def stream_task(chk, kinds):
+            n_err_paths = n_ok_paths = 0
             script0, lens = mk_script(kinds)
-            assume = no_overflow(lens)
-            eff = ovr if has else dflt
+            assume = no_overflow(lens) + rng
             def h(ex):
                 Yielder.emitted = []
                 body = Body(script0)
-                req = httpmodel.Request(body=body)
-                fut = ex.call_fn(F_untyped, [Ref(Cell(mk_rqctx(ex, has))), req])
-                cell = AM.pinned(fut)
-                if isinstance(cell.v, Ref): cell = cell.v.cell
-                r = AM.drive(ex, cell)
-                if r.discr == 0:
-                    content = ex.field(ex.payload(r), 'content').v
-                    return ('ok', list(dv(content).chunks))
-                return ('err', httpmodel.status_of(ex, ex.payload(r)))
+                sb = ex.mk_struct('StreamingBody', body=body, cap=cap)
+                st = ex.call_fn(F_into_stream, [sb])
+                for _ in range(len(script0) + 3):
+                    if AM.stream_next(ex, st) is None: break
+                else:
+                    raise Unsupported('stream did not end')
+                return describe_emitted(ex, Yielder.emitted), body.pos
             outs = ex.explore(h, assume)
             chk.paths += len(outs)
             for pc, (k, r) in outs:
                 if k != 'ok':
-                    m = chk.prove(f'untyped/{"-".join(kinds)}/no-panic', pc, z3.BoolVal(True), extra=assume)
-                    report_stream(chk, m, kinds, lens, eff, f'UntypedBody::from_request panicked: {r}')
+                    m = chk.prove(f'stream/{"-".join(kinds)}/no-panic', pc, z3.BoolVal(True), extra=assume)
+                    report_stream(chk, m, kinds, lens, cap, f'into_stream panicked: {r}')
                     continue
-                def then(pc2, spec, r=r):
-                    spec_err = any(s[0] == 'err' for s in spec)
-                    if spec_err:
-                        good = r[0] == 'err' and isinstance(r[1], int) and 400 <= r[1] <= 499
-                    else:
-                        good = r[0] == 'ok' and len(r[1]) == len(spec) and all(a is s[1] for a, s in zip(r[1], spec))
-                    m = chk.prove(f'untyped/{"-".join(kinds)}/{"override" if has else "default"}/as-specified', pc2, z3.BoolVal(not good), extra=assume, prefer=[z3.ULE(l, 64) for l in lens] + [z3.ULE(dflt, 256), z3.ULE(ovr, 256)])
+                emitted, consumed = r
+                def then(pc2, spec, emitted=emitted, consumed=consumed):
+                    nonlocal n_err_paths, n_ok_paths
+                    same = len(spec) == len(emitted) and all(
+                        (s[0] == 'ok' and e[0] == 'ok' and s[1] is e[1]) or (s[0] == 'err' and e[0] == 'err' and isinstance(e[1], int) and 400 <= e[1] <= 499)
+                        for s, e in zip(spec, emitted))
+                    m = chk.prove(f'stream/{"-".join(kinds)}/emitted-as-specified', pc2, z3.BoolVal(not same), extra=assume, prefer=small(lens, cap))
                     if m is not None:
-                        report_stream(chk, m, kinds, lens, eff, f'buffered extractor returned {r}, statement says {spec}', dflt=dflt, ovr=ovr if has else None)
-                refeval.under(list(pc) + assume, lambda d: spec_stream(script0, eff, d), then, Inconclusive)
+                        report_stream(chk, m, kinds, lens, cap, f'stream emitted {emitted}, statement says {spec}')
+                        return
+                    delivered = total([e[1].len for e in emitted if e[0] == 'ok'])
+                    m = chk.prove(f'stream/{"-".join(kinds)}/delivered-at-most-limit', pc2, ugt(delivered, cap), extra=assume, prefer=small(lens, cap))
+                    if m is not None: report_stream(chk, m, kinds, lens, cap, 'more bytes delivered than the limit')
+                    has_err = any(e[0] == 'err' for e in emitted)
+                    if has_err:
+                        n_err_paths += 1
+                        # an oversize body is drained before the error is reported
+                        if 'error' not in kinds and consumed != len(kinds):
+                            m = chk.prove(f'stream/{"-".join(kinds)}/oversize-body-drained', pc2, z3.BoolVal(True), extra=assume)
+                            report_stream(chk, m, kinds, lens, cap, f'only {consumed} of {len(kinds)} frames consumed before refusing')
+                    else:
+                        n_ok_paths += 1
+                        m = chk.prove(f'stream/{"-".join(kinds)}/within-limit-delivered-intact', pc2,
+                                      z3.Or(delivered != total(lens), ugt(total(lens), cap)), extra=assume)
+                        if m is not None: report_stream(chk, m, kinds, lens, cap, 'body within the limit not delivered intact')
+                refeval.under(list(pc) + assume, lambda d: spec_stream(script0, cap, d), then, Inconclusive)
+            return {'err': n_err_paths, 'ok': n_ok_paths}
+        extras, inc = parallel(chk, list(shapes(kmax)), stream_task); incon += inc
+        n_err_paths, n_ok_paths = sum(e.get('err', 0) for e in extras), sum(e.get('ok', 0) for e in extras)
+        if not n_err_paths or not n_ok_paths: raise Inconclusive('vacuity: no refusing / no accepting stream path')
 
-    # ---- (4) the override reaches the request: lookup_route hands out the matched endpoint's own limit (router.rs), whatever
-    #          else is registered for the same path / method in other version ranges or behind a wildcard
-    from props import router_run, routerlib as RL, vermodel
-    saved = ex.models
-    ex.models = vermodel.MODELS + RL.ROUTER_MODELS + ex.models
-    try:
-        R = RL.Router(chk, ex)
-        tables = [[('PUT', '/a', 'Until'), ('PUT', '/a', 'From')], [('PUT', '/a', 'From'), ('PUT', '/a', 'Until'), ('GET', '/a', 'All')],
-                  [('PUT', '/a/{r:.*}', 'From'), ('PUT', '/a', 'Until'), ('PUT', '/a/{r:.*}', 'Until')], [('PUT', '/{x}', 'FromUntil'), ('PUT', '/{x}', 'FromUntil'), ('PUT', '/{x}/b', 'All')]]
-        n0 = len(chk.obligations)
-        for ti, spec in enumerate(tables):
-            tr = router_run.TableRun(chk, ex, R, spec, 'C11', 2, f'carried/t{ti}')
-            tr.run(list(itertools.permutations(range(len(spec)))))
-        if len(chk.obligations) - n0 < 20: raise Inconclusive('vacuity: too few lookup paths in the limit-carrying part')
-    finally:
-        ex.models = saved
+        _ph['stream'] = round(_t.time() - chk.t0, 1)
+        # ---- (3) buffered extractor (UntypedBody): Ok iff the stream has no error; content = all data chunks in order; cap = effective limit
+        def untyped_task(chk, task):
+                kinds, has = task
+                script0, lens = mk_script(kinds)
+                assume = no_overflow(lens) + rng
+                eff = ovr if has else dflt
+                def h(ex):
+                    Yielder.emitted = []
+                    body = Body(script0)
+                    req = httpmodel.Request(body=body)
+                    fut = ex.call_fn(F_untyped, [Ref(Cell(mk_rqctx(ex, has))), req])
+                    cell = AM.pinned(fut)
+                    if isinstance(cell.v, Ref): cell = cell.v.cell
+                    r = AM.drive(ex, cell)
+                    if r.discr == 0:
+                        content = ex.field(ex.payload(r), 'content').v
+                        return ('ok', list(dv(content).chunks))
+                    return ('err', httpmodel.status_of(ex, ex.payload(r)))
+                outs = ex.explore(h, assume)
+                chk.paths += len(outs)
+                for pc, (k, r) in outs:
+                    if k != 'ok':
+                        m = chk.prove(f'untyped/{"-".join(kinds)}/no-panic', pc, z3.BoolVal(True), extra=assume)
+                        report_stream(chk, m, kinds, lens, eff, f'UntypedBody::from_request panicked: {r}')
+                        continue
+                    def then(pc2, spec, r=r):
+                        spec_err = any(s[0] == 'err' for s in spec)
+                        if spec_err:
+                            good = r[0] == 'err' and isinstance(r[1], int) and 400 <= r[1] <= 499
+                        else:
+                            good = r[0] == 'ok' and len(r[1]) == len(spec) and all(a is s[1] for a, s in zip(r[1], spec))
+                        m = chk.prove(f'untyped/{"-".join(kinds)}/{"override" if has else "default"}/as-specified', pc2, z3.BoolVal(not good), extra=assume, prefer=[ule(l, 64) for l in lens] + [ule(dflt, 256), ule(ovr, 256)])
+                        if m is not None:
+                            report_stream(chk, m, kinds, lens, eff, f'buffered extractor returned {r}, statement says {spec}', dflt=dflt, ovr=ovr if has else None)
+                    refeval.under(list(pc) + assume, lambda d: spec_stream(script0, eff, d), then, Inconclusive)
+        extras, inc = parallel(chk, [(k_, h_) for k_ in shapes(min(kmax, 5 if ENC['int'] else 3)) for h_ in (False, True)], untyped_task); incon += inc
 
-    # ---- (5) the multipart extractor: what it hands to the multipart parser is the body through the same cap (effective limit)
-    part_multipart(chk, ex, mk_rqctx, dflt, ovr, min(kmax, 3))
+        _ph['untyped'] = round(_t.time() - chk.t0, 1)
+        if not with_router_part: return incon + part_multipart(chk, ex, mk_rqctx, dflt, ovr, min(kmax, 5))
+        # ---- (4) the override reaches the request: lookup_route hands out the matched endpoint's own limit (router.rs), whatever
+        #          else is registered for the same path / method in other version ranges or behind a wildcard
+        from props import router_run, routerlib as RL, vermodel
+        saved = ex.models
+        ex.models = vermodel.MODELS + RL.ROUTER_MODELS + ex.models
+        try:
+            R = RL.Router(chk, ex)
+            tables = [[('PUT', '/a', 'Until'), ('PUT', '/a', 'From')], [('PUT', '/a', 'From'), ('PUT', '/a', 'Until'), ('GET', '/a', 'All')],
+                      [('PUT', '/a/{r:.*}', 'From'), ('PUT', '/a', 'Until'), ('PUT', '/a/{r:.*}', 'Until')], [('PUT', '/{x}', 'FromUntil'), ('PUT', '/{x}', 'FromUntil'), ('PUT', '/{x}/b', 'All')]]
+            n0 = len(chk.obligations)
+            def table_task(chk, task):
+                ti, spec = task
+                tr = router_run.TableRun(chk, ex, R, spec, 'C11', 2, f'carried/t{ti}')
+                tr.run(list(itertools.permutations(range(len(spec)))))
+            extras, inc = parallel(chk, list(enumerate(tables)), table_task); incon += inc
+            if len(chk.obligations) - n0 < 20 and not inc: raise Inconclusive('vacuity: too few lookup paths in the limit-carrying part')
+        finally:
+            ex.models = saved
 
+        _ph['carried'] = round(_t.time() - chk.t0, 1)
+        # ---- (5) the multipart extractor: what it hands to the multipart parser is the body through the same cap (effective limit)
+        incon += part_multipart(chk, ex, mk_rqctx, dflt, ovr, min(kmax, 3))
+        return incon
+
+        _ph['multipart'] = round(_t.time() - chk.t0, 1)
+
+    # lengths and limits as 64-bit vectors (bit-blasted) up to 4 frames; as mathematical integers with the wrap-around made explicit
+    # (linear arithmetic) for longer frame scripts, where bit-blasting the chained 64-bit additions does not finish
+    plan = [('bv', 4, True)] if tier == 'quick' else [('bv', 4, True), ('int', int(os.environ.get('C11_KMAX', '8')), False)]
+    incon = []
+    for enc, km, wr in plan:
+        incon += one_encoding(enc, km, wr)
+    chk.name_prefix = ''
+    ENC['int'] = False
+    chk.bounds['frames_per_body'] = '; '.join(f'0..{km} frames with {enc} lengths' for enc, km, _ in plan) + ' (each frame: data of symbolic 64-bit length | trailers | transport error; <=1 error, <=1 trailers)'
     # ---- informational: the overflow the assumption excludes
     script0, lens = mk_script(('data', 'data'))
-    s = z3.Solver(); s.add(z3.Not(z3.BVAddNoOverflow(lens[0], lens[1], False)))
+    s = z3.Solver(); s.add((lens[0] + lens[1] >= (1 << 64)) if ENC['int'] else z3.Not(z3.BVAddNoOverflow(lens[0], lens[1], False))); s.add(in_range(lens))
     chk.notes.append(f'without the body-length assumption, bytes_read + len can overflow (panic with overflow checks on): {s.check()}')
 
     witnesses(chk)
+    if incon:
+        rc = chk.finish('inconclusive run')
+        if rc == 1: return 1
+        raise Inconclusive(f'{len(incon)} task(s) inconclusive; first: {incon[0]}')
     return chk.finish('one obligation per (frame-script shape, execution path across polls, reference case); non-trivial = distinct name')
 
 
 def part_multipart(chk, ex, mk_rqctx, dflt, ovr, kmax):
+    rng = in_range([dflt, ovr])
     import glob, os, re
     from mirsym.core import SymStr, StrSort
     from mirsym.runner import REPO
@@ -231,19 +280,20 @@ def part_multipart(chk, ex, mk_rqctx, dflt, ovr, kmax):
     f = ex.fns
     F = [n for n in mir.find(f, r'extractor::body::<impl at [^>]*>::from_request$', unique=False) if 'MultipartBody' in (f[n].ret or '')][0]
     hv_ = re.search(r'name = "http"\nversion = "([^"]+)"', open(os.path.join(REPO, 'Cargo.lock')).read()).group(1)
-    for p_ in glob.glob(os.path.expanduser(f'~/.cargo/registry/src/*/http-{hv_}/src/request.rs')): ex.L.add_source(p_, only={'Parts'})
+    if not getattr(ex, '_parts_loaded', False):
+        for p_ in glob.glob(os.path.expanduser(f'~/.cargo/registry/src/*/http-{hv_}/src/request.rs')): ex.L.add_source(p_, only={'Parts'})
+        ex._parts_loaded = True
     seen = {}
     def m_multipart_new(ex, a, c):
         seen['stream'] = dv(a[0])
         return Opaque('multipart', (a[0], dv(a[1])))
     local = [(r'^(multer::)?parse_boundary::', lambda ex, a, c: ex.ok(Opaque('boundary'))), (r'Multipart::<.*>::new::<|^multer::Multipart::new', m_multipart_new),
              (r'Body::into_data_stream$', lambda ex, a, c: Opaque('uncapped-data-stream', dv(a[0])), True)] + [m for m in c10.MODELS if 'into_parts' in m[0]]
-    n_capped = 0
-    for kinds in shapes(kmax):
-        if 'trailers' in kinds: continue
-        for has in (False, True):
+    def task_fn(chk, task):
+            kinds, has = task
+            n_capped = 0
             script0, lens = mk_script(kinds)
-            assume = no_overflow(lens)
+            assume = no_overflow(lens) + rng
             eff = ovr if has else dflt
             def h(ex):
                 Yielder.emitted = []; seen.clear()
@@ -291,7 +341,7 @@ def part_multipart(chk, ex, mk_rqctx, dflt, ovr, kmax):
                         (s_[0] == 'ok' and e[0] == 'ok' and s_[1] is e[1]) or (s_[0] == 'err' and e[0] == 'err' and isinstance(e[1], int) and 400 <= e[1] <= 499)
                         for s_, e in zip(spec, emitted))
                     m = chk.prove(f'{tag}/parser-is-fed-the-body-through-the-limit', pc2, z3.BoolVal(not same), extra=assume,
-                                  prefer=[z3.ULE(l, 64) for l in lens] + [z3.ULE(dflt, 256), z3.ULE(ovr, 256), z3.UGE(dflt, 16), z3.UGE(ovr, 16)])
+                                  prefer=[ule(l, 64) for l in lens] + [ule(dflt, 256), ule(ovr, 256), ule(16, dflt), ule(16, ovr)])
                     if m is None: return
                     ls, d, o = [concrete(m, l) for l in lens], concrete(m, dflt), concrete(m, ovr)
                     if sum(ls) > 65536 or d > 65536 or (has and o > 65536):
@@ -303,7 +353,11 @@ def part_multipart(chk, ex, mk_rqctx, dflt, ovr, kmax):
                     chk.counterexample(f'MultipartBody ({how} stream): frames {ls} with limit {lim} reach the multipart parser as {emitted}, the statement says {spec}; '
                                        f'on a real server a form field of {sum(ls)} bytes -> {nat}', case, bad, role='multipart-uncapped' if how == 'uncapped' else 'multipart')
                 refeval.under(list(pc) + assume, lambda d_: spec_stream(script0, eff, d_), then, Inconclusive)
+            return {'capped': n_capped}
+    extras, incon = parallel(chk, [(k_, h_) for k_ in shapes(kmax) if 'trailers' not in k_ for h_ in (False, True)], task_fn)
+    n_capped = sum(e.get('capped', 0) for e in extras)
     chk.extra['multipart_capped_paths'] = n_capped
+    return incon
 
 
 def concrete(m, t):
